@@ -1,7 +1,7 @@
 package main
 
 // main.go — whole-broker harness: real Engine + MemoryBackend (wrapped by RecBackend, peer.go) over TCP loopback,
-// scripted MQTT peers.  Commands c06 c07 c08 c12 c13 c14 c15 c16 (scenario groups of the properties of those names).
+// scripted MQTT peers.  Commands c06 c07 c08 c12 c13 c14 c15 c16 c20 (scenario groups of the properties of those names).
 //
 //	main.go   start/stop of a broker instance, payload numbering, the order oracle, the C08 rounds
 //	peer.go   scripted peer, RecBackend: life-cycle log, gates, fault injection by call site
@@ -24,7 +24,7 @@ import (
 )
 
 func main() {
-	hx.Main(map[string]func(*hx.Ctx){"c06": runC06, "c07": runC07, "c08": runC08, "c12": runC12, "c13": runC13, "c14": runC14, "c15": runC15, "c16": runC16})
+	hx.Main(map[string]func(*hx.Ctx){"c06": runC06, "c07": runC07, "c08": runC08, "c12": runC12, "c13": runC13, "c14": runC14, "c15": runC15, "c16": runC16, "c20": runC20})
 }
 
 type sys struct {
